@@ -84,6 +84,7 @@ type ContractSet struct {
 	ParametricFiles []string
 	ParametricFuncs map[string]bool
 	TypeInvs     []*TypeInv
+	ChildInvs    []*ChildInv
 	ElemsNonNil  map[string]bool // type keys whose slice elements are never nil
 	ArgObserved  map[string]bool // function keys whose call operands are recorded as ghost state
 	typeInvByKey map[string][]*TypeInv
@@ -115,7 +116,7 @@ type TypeInv struct {
 
 var clauseKeywords = map[string]bool{"stable": true, "reads-model": true, "names": true, "iteration": true, "variant": true, "requires": true, "ensures": true, "invariant": true, "decreases": true, "property": true,
 	"pure": true, "assigns": true, "trusted": true, "noinline": true, "inline": true, "func": true, "sweep": true, "immutable": true, "spec": true,
-	"axiom": true, "flagset": true, "safeonly": true, "immutable-family": true, "method-pre": true, "funcvalue-pre": true, "entry": true, "type-invariant": true, "elems-nonnil": true, "callback-parametric": true, "json-hidden": true, "json-visible": true, "pass-order": true, "observe-args": true, "map-order": true}
+	"axiom": true, "flagset": true, "safeonly": true, "immutable-family": true, "method-pre": true, "funcvalue-pre": true, "entry": true, "type-invariant": true, "child-invariant": true, "elems-nonnil": true, "callback-parametric": true, "json-hidden": true, "json-visible": true, "pass-order": true, "observe-args": true, "map-order": true}
 
 var contractRoot = "" // directory that contract file paths are relative to (repo or mirror)
 
@@ -430,7 +431,26 @@ func (w *World) parseContractFile(cs *ContractSet, file string) error {
 				return err
 			}
 			c.Name = hd[1]
+			c.Pkg = pkgShort
 			cs.TypeInvs = append(cs.TypeInvs, &TypeInv{TypeText: hd[0], Var: hd[1], Clause: c})
+		case "child-invariant":
+			// child-invariant <structType>.<sliceField> <child> <parent> :: <expr>
+			// a fact about every element read from parent.<sliceField> (assumed at the load, no quantifier)
+			k := strings.Index(rest, "::")
+			if k < 0 || len(strings.Fields(rest[:k])) != 3 {
+				return fmt.Errorf("%s:%d: child-invariant wants '<struct>.<field> <child> <parent> :: <expr>'", file, rl.line)
+			}
+			hd := strings.Fields(rest[:k])
+			dot := strings.LastIndex(hd[0], ".")
+			if dot < 0 {
+				return fmt.Errorf("%s:%d: child-invariant wants '<struct>.<field>'", file, rl.line)
+			}
+			c, err := mk("child-invariant", strings.TrimSpace(rest[k+2:]))
+			if err != nil {
+				return err
+			}
+			c.Pkg = pkgShort
+			cs.ChildInvs = append(cs.ChildInvs, &ChildInv{StructText: hd[0][:dot], Field: hd[0][dot+1:], Child: hd[1], Parent: hd[2], Clause: c})
 		case "callback-parametric":
 			// callback-parametric file <path> : functions of that file call nothing dynamically except the function
 			// values they are given (directly or inside the visitor object they pass around)
@@ -685,4 +705,12 @@ func closureEmitting(w *World, parentKey, lit string) *ssa.Function {
 		}
 	}
 	return found
+}
+
+// ChildInv: a fact about every element c read from p.<Field> (p of type *<StructText>), assumed where the element is loaded.
+type ChildInv struct {
+	StructText, Field string
+	Child, Parent     string
+	Clause            *Clause
+	structKey         string
 }
